@@ -1,5 +1,7 @@
 import ErgoVerif.Drive.Util
 import ErgoVerif.Model.Window
+import ErgoVerif.Model.SupDefaults
+import ErgoVerif.Generated.SupDefaults
 namespace ErgoVerif.Drive.Window
 open ErgoVerif.Drive ErgoVerif.Window
 
@@ -17,6 +19,13 @@ def line (s : String) : String :=
     | some k, some p, some ts =>
       " ".intercalate ((runSpec p k [] ts).map fun b => if b then "1" else "0")
     | _, _, _ => "bad-op"
+  | ["eff", i, p] =>          -- the restart options the state machines get for the options the developer wrote
+    match i.toNat?, p.toNat? with
+    | some i, some p =>
+      let e := ErgoVerif.SupDefaults.eff ErgoVerif.Gen.SupDefaults.defaultsIndependent
+        ErgoVerif.Gen.SupDefaults.defaultIntensity ErgoVerif.Gen.SupDefaults.defaultPeriod i p
+      s!"{e.1} {e.2}"
+    | _, _ => "bad-op"
   | _ => "bad-op"
 
 def main (h : IO.FS.Stream) : IO Unit := loopPure h line
